@@ -133,10 +133,14 @@ namespace sim
 		const int packet_size = int(p.buffer.size() + p.overhead);
 		m_queue_size -= packet_size;
 
-		forward_packet(std::move(p));
-
+		// start sending the next packet before handing this one on: the next
+		// hop may synchronously put a new packet into this queue (a socket
+		// answering with an ACK through the same network queue), which must
+		// not start the sender a second time
 		if (m_queue.size())
 			begin_send_next_packet();
+
+		forward_packet(std::move(p));
 	}
 }
 
